@@ -23,7 +23,8 @@ import re
 _TERMINAL_KEY = '$'
 
 # A regular expression that matches valid selectors.
-SELECTOR_RE = re.compile(r'^([a-zA-Z_]\w*\.)*[a-zA-Z_]\w*$')
+# (`\Z`, not `$`: the latter also matches before a trailing newline.)
+SELECTOR_RE = re.compile(r'^([a-zA-Z_]\w*\.)*[a-zA-Z_]\w*\Z')
 
 
 class SelectorMap:
